@@ -19,6 +19,12 @@ if TYPE_CHECKING:
 _ROUTING_DECISION_KEY = "__routing_decision__"
 
 
+def _node_identity(node: HyperNode) -> str:
+    """Definition hash qualified by what the cached outputs are stored under."""
+    targets = getattr(node, "targets", None)
+    return f"{node.definition_hash}:{type(node).__name__}:{node.outputs!r}:{targets!r}"
+
+
 def check_cache(
     node: HyperNode,
     inputs: dict[str, Any],
@@ -34,7 +40,7 @@ def check_cache(
 
     from hypergraph.cache import compute_cache_key
 
-    cache_key = compute_cache_key(node.definition_hash, inputs)
+    cache_key = compute_cache_key(_node_identity(node), inputs)
     if not cache_key:
         return "", None
 
